@@ -118,7 +118,9 @@ def render(doc, log=None, files=None, parent_dir=''):
             out.append('`description of %s` %s' % (it[1], ls[0]))
         elif k == 'idp':
             n = it[2]
-            if n == 1:
+            if n == 0:
+                out.append('``')  # an empty description
+            elif n == 1:
                 out.append('`description of %s`' % it[1])
             else:
                 out.append('`description of %s' % it[1])
@@ -183,7 +185,10 @@ def expected_elements(doc, log=None, chain=(), acc=None, start_phase='act', ref_
         elif k == 'idp':
             n = it[2]
             ls = instr_lines('i1', it[1], phase, log)
-            if n == 1:
+            if n == 0:
+                desc = ''
+                n = 1
+            elif n == 1:
                 desc = 'description of %s' % it[1]
             else:
                 desc = '\n'.join(['description of %s' % it[1]] + ['more description %d' % j for j in range(n - 2)] +
@@ -273,7 +278,7 @@ def _rand_items(rng, start_phase, depth, idgen, allow_hdr=True, max_items=8):
         elif r < 0.78:
             items.append(['ids', idgen()])
         elif r < 0.86:
-            items.append(['idp', idgen(), rng.choice((1, 2, 3))] +
+            items.append(['idp', idgen(), rng.choice((0, 1, 1, 2, 3))] +
                          ([rng.choice([[''], ['# a comment'], ['', '   # indented comment', ''], ['#c1', '#c2'],
                                        ['   ', '\t']])] if rng.random() < 0.4 else []))
         elif depth > 0:
@@ -818,7 +823,7 @@ def _line_of_item(doc, index):
         elif k in ('i1', 'im', 'ip'):
             ln += len(instr_lines(k, it[1], phase, None))
         elif k == 'idp':
-            ln += it[2] + (len(it[3]) if len(it) > 3 else 0) + len(instr_lines('i1', it[1], phase, None))
+            ln += max(1, it[2]) + (len(it[3]) if len(it) > 3 else 0) + len(instr_lines('i1', it[1], phase, None))
     return ln
 
 
